@@ -49,7 +49,8 @@ def spec_view(s):
 
 def run_stream(out, stream, cases, impl_texts):
     mo = [view(t) for t in lib.run_model([world.model_line(c) for c in cases])]
-    ex = [spec_view(s) for s in lib.run_model([spec_line(c) for c in cases])]
+    # the Spec speaks about exchanges whose login reply carries a session (12 bytes or more); what an empty or cut login reply leads to is C09's subject
+    ex = [spec_view(s) if oc.has_session(c) else "-" for c, s in zip(cases, lib.run_model([spec_line(c) if oc.has_session(c) else "spec_login #0 - - #0" for c in cases]))]
     io = [view(t) for t in impl_texts]
     nontriv = {id(c) for c, e in zip(cases, ex) if e != "-"}
     lib.differential(out, stream, cases, io, mo, ex, oc.describe, nontrivial=lambda c: id(c) in nontriv,
@@ -116,6 +117,16 @@ def run(tier, rnd, out):
     run_stream(out, "random", cs, world.run_cases_fresh(cs))
     cs = world.with_delays(rnd, oc.mixed_cases(rnd, 30 if tier == "quick" else 600, KINDS))       # a device that takes from 0.2 s to a day to answer (virtual clock)
     run_stream(out, "random-with-slow-replies", cs, world.run_cases_fresh(cs))
+    # replies that are empty, cut or garbage at either step: whatever the outcome, the frames written are the login frame and, after a
+    # non-empty login reply, the one command frame of the arguments - nothing is sent again, nothing else is sent
+    cs = oc.mixed_cases(rnd, 25 if tier == "quick" else 600, KINDS, reply_mode="faulty", accepted_args=True)
+    run_stream(out, "accepted-arguments-faulty-replies", cs, world.run_cases_fresh(cs))
+    # over loopback TCP, a device that hangs up instead of answering the command (and would accept a new connection): the frames it
+    # received, on whatever connections, are the login frame and the one command frame
+    import asyncio
+    cs = [c for c in oc.mixed_cases(rnd, 2 if tier == "quick" else 20, KINDS, accepted_args=True) if len(c["replies"]) >= 2 and len(c["replies"][0]) >= 24]
+    for c in cs: c["replies"] = [c["replies"][0], ""]
+    run_stream(out, "over-tcp-the-device-hangs-up-instead-of-answering-the-command", cs, asyncio.run(oc.run_tcp(cs)))
     cs, texts = run_on_one_object(rnd, 40 if tier == "quick" else 1500)
     run_stream(out, "sequences-on-one-object", cs, texts)
     out.exhaustive = False
